@@ -993,7 +993,11 @@ func c19Stress(c *harness.Ctx) {
 				case 11:
 					call(FNFTXfer, me, me, mkIn(a.me, a.me, gas, t, gen.U64(1), gen.Big(1), a.peer))
 				case 12: // cross shard: priced by own cost + payload bytes
-					out, err := call(FNFTXfer, me, me, mkIn(a.me, a.me, gas, t, gen.U64(1), gen.Big(1), a.far))
+					inF := mkIn(a.me, a.me, gas, t, gen.U64(1), gen.Big(1), a.far)
+					if seq%2 == 1 {
+						inF.CallType = []vmcommon.CallType{vmcommon.ESDTTransferAndExecute, vmcommon.AsynchronousCall, vmcommon.AsynchronousCallBack}[(seq/2)%3]
+					}
+					out, err := call(FNFTXfer, me, me, inF)
 					if err == nil && out != nil {
 						n := uint64(0)
 						for _, oa := range out.OutputAccounts {
@@ -1015,7 +1019,11 @@ func c19Stress(c *harness.Ctx) {
 						}
 					}
 				case 23: // same-shard single NFT transfer, priced likewise
-					out, err := call(FNFTXfer, me, me, mkIn(a.me, a.me, gas, t, gen.U64(1), gen.Big(1), a.peer))
+					inX := mkIn(a.me, a.me, gas, t, gen.U64(1), gen.Big(1), a.peer)
+					if seq%2 == 0 {
+						inX.CallType = []vmcommon.CallType{vmcommon.ESDTTransferAndExecute, vmcommon.AsynchronousCall, vmcommon.AsynchronousCallBack}[(seq/2)%3] // every call type is priced alike
+					}
+					out, err := call(FNFTXfer, me, me, inX)
 					if err == nil && out != nil {
 						if v := peer.Peek([]byte(node.StorageKey(t, 1))); len(v) > 0 {
 							n := uint64(len(v))
